@@ -393,14 +393,62 @@ static void post_run (int n)
   check_codemem (1);
 }
 
+/* --- S5: several threads emulate (and run) one shared code object on their own data --- */
+static OrcCode *emu_code;
+static int s5_ok[MAXT];
+static OrcProgram *mk_emu_prog (void)
+{
+  OrcProgram *p = orc_program_new_dss (2, 2, 2);
+  orc_program_set_name (p, "sched_emu");
+  orc_program_add_temporary (p, 2, "t1");
+  orc_program_add_temporary (p, 2, "t2");
+  orc_program_add_parameter (p, 2, "p1");
+  orc_program_add_constant (p, 2, 7, "c1");
+  orc_program_append_str (p, "mullw", "t1", "s1", "p1");
+  orc_program_append_str (p, "addw", "t2", "t1", "c1");
+  orc_program_append_str (p, "subw", "d1", "t2", "s2");
+  return p;
+}
+static int emu_check (int id, int native)
+{
+  short s1[8], s2[8], d[8], e[8];
+  OrcExecutor ex;
+  int i, n = 5, par = 3 + 5 * id;
+  for (i = 0; i < 8; i++) { s1[i] = (short) (i * 77 + 1000 * id); s2[i] = (short) (i * 13 - 5 - id); d[i] = e[i] = 0x5a5a; }
+  for (i = 0; i < n; i++) e[i] = (short) ((short) ((short) (s1[i] * par) + 7) - s2[i]);
+  memset (&ex, 0, sizeof (ex));
+  ex.arrays[ORC_VAR_A2] = emu_code;
+  ex.n = n;
+  ex.arrays[ORC_VAR_D1] = d; ex.arrays[ORC_VAR_S1] = s1; ex.arrays[ORC_VAR_S2] = s2;
+  ex.params[ORC_VAR_P1] = par;
+  if (native) orc_executor_run (&ex); else orc_executor_emulate (&ex);
+  return memcmp (d, e, sizeof (d)) == 0;
+}
+static void body_emulate (int id)
+{
+  int ok = 1, r;
+  for (r = 0; r < 2; r++) {
+    if (!emu_check (id, 0)) ok = 0;
+    if (!emu_check (id, 1)) ok = 0;
+  }
+  s5_ok[id] = ok;
+}
+static void post_emulate (int n)
+{
+  int i;
+  for (i = 0; i < n; i++) if (!s5_ok[i]) fail ("thread %d: emulation or native run of the shared code on its own data gave a wrong result", i);
+  check_codemem (1);
+}
+
 typedef struct { const char *name; Body body; void (*post) (int); int pre_init; } Scenario;
 static const Scenario scenarios[] = {
   { "init", body_init, post_init, 0 },
   { "once", body_once, post_once, 1 },
   { "codemem", body_codemem, post_codemem, 1 },
   { "run", body_run, post_run, 1 },
+  { "emulate", body_emulate, post_emulate, 1 },
 };
-#define NSCEN 4
+#define NSCEN 5
 
 static void finish_report (const char *extra, int isbad)
 {
@@ -430,6 +478,12 @@ static void child_run (const Scenario * sc, int nthreads, const int *pre, int np
       OrcProgram *p = mk_prog (0);
       orc_program_compile (p);
       shared_code = orc_program_take_code (p);
+      orc_program_free (p);
+    }
+    if (sc->body == body_emulate) {
+      OrcProgram *p = mk_emu_prog ();
+      orc_program_compile (p);
+      emu_code = orc_program_take_code (p);
       orc_program_free (p);
     }
   }
@@ -594,6 +648,7 @@ int main (int argc, char **argv)
     if (sc->pre_init) {
       orc_init ();
       if (sc->body == body_run) { OrcProgram *p = mk_prog (0); orc_program_compile (p); shared_code = orc_program_take_code (p); orc_program_free (p); }
+      if (sc->body == body_emulate) { OrcProgram *p = mk_emu_prog (); orc_program_compile (p); emu_code = orc_program_take_code (p); orc_program_free (p); }
     }
     for (r = 0; r < freerun; r++) {
       run_free (nthreads > MAXT ? MAXT : nthreads, sc->body);
